@@ -4,6 +4,7 @@ mod out;
 mod p_c02;
 mod p_c09;
 mod p_c20;
+mod p_dom;
 mod p_get;
 mod dump;
 mod rng;
@@ -25,6 +26,9 @@ fn main() {
                 "C02" => p_c02::run(&mut out, tier, seed),
                 "C09" => p_c09::run(&mut out, tier, seed),
                 "C20" => p_c20::run(&mut out, tier, seed),
+                "C03" => p_dom::run_c03(&mut out, tier, seed),
+                "C06" => p_dom::run_c06(&mut out, tier, seed),
+                "C13" => p_dom::run_c13(&mut out, tier, seed),
                 "C10" => p_get::run_c10(&mut out, tier, seed),
                 "C11" => p_get::run_c11(&mut out, tier, seed),
                 "C12" => p_get::run_c12(&mut out, tier, seed),
